@@ -6,6 +6,8 @@ CONSTANTS MaxPages = 5
  Reads = {1, 2, 8}
  BackUpRule = "begin"
  HandOver = "refetch"
+ GuessRule = "clamped"
+ Lies = FALSE
 INVARIANT Terminates
 INVARIANT SubmitsTheRightPage
 CHECK_DEADLOCK FALSE
